@@ -157,11 +157,17 @@ func (s *Session) Assert(t *Term) {
 	s.send("(assert " + r + ")\n")
 }
 
-// Check asks whether the current assertions plus extra are satisfiable.
-func (s *Session) Check(extra *Term) Result {
-	var r string
-	if extra != nil {
-		r = s.P.Ref(extra)
+// Check asks whether the conjunction of ts is satisfiable together with
+// whatever was asserted permanently (the engine asserts nothing
+// permanently: every query carries its own, sliced, constraint set). The
+// scope stays open until PopCheck so that Model/Eval can be used.
+func (s *Session) Check(ts ...*Term) Result {
+	refs := make([]string, 0, len(ts))
+	for _, t := range ts {
+		if t == nil {
+			continue
+		}
+		refs = append(refs, s.P.Ref(t))
 	}
 	s.flushDefs()
 	t0 := time.Now()
@@ -173,11 +179,15 @@ func (s *Session) Check(extra *Term) Result {
 			cs = "(check-sat-using qfbv)\n"
 		}
 	}
-	if extra != nil {
-		s.send("(push 1)\n(assert " + r + ")\n" + cs)
-	} else {
-		s.send(cs)
+	var sb strings.Builder
+	sb.WriteString("(push 1)\n")
+	for _, r := range refs {
+		sb.WriteString("(assert ")
+		sb.WriteString(r)
+		sb.WriteString(")\n")
 	}
+	sb.WriteString(cs)
+	s.send(sb.String())
 	lines := s.sync()
 	d := time.Since(t0)
 	s.Queries++
@@ -203,7 +213,8 @@ func (s *Session) Check(extra *Term) Result {
 	if hadErr {
 		res = Unknown
 	}
-	s.lastHadPush = extra != nil
+	s.lastHadPush = true
+	s.depth++
 	return res
 }
 
@@ -213,6 +224,7 @@ func (s *Session) PopCheck() {
 	if s.lastHadPush {
 		s.send("(pop 1)\n")
 		s.lastHadPush = false
+		s.depth--
 	}
 }
 
@@ -401,7 +413,11 @@ func parseValue(v interface{}, sort Sort) ModelValue {
 // Eval returns the model value of an arbitrary term after a Sat answer.
 func (s *Session) Eval(t *Term) ModelValue {
 	r := s.P.Ref(t)
-	s.flushDefs()
+	if s.P.Out.Len() > 0 {
+		// t must have been part of the checked formulas; defining new terms
+		// inside the check scope would be lost on pop.
+		s.Errors = append(s.Errors, "Eval: term not yet defined")
+	}
 	s.send("(get-value (" + r + "))\n")
 	lines := s.sync()
 	toks := tokenize(strings.Join(lines, " "))
